@@ -112,6 +112,8 @@ pub(crate) struct Circuit {
     count_window: VecDeque<(bool, bool)>,
     // Calls recorded since the last state change (not capped by the window size)
     recorded_since_change: usize,
+    // Successful trial calls recorded in the current half-open phase
+    half_open_successes: usize,
 }
 
 impl Default for Circuit {
@@ -141,6 +143,7 @@ impl Circuit {
             call_records: VecDeque::new(),
             count_window: VecDeque::new(),
             recorded_since_change: 0,
+            half_open_successes: 0,
         }
     }
 
@@ -312,11 +315,11 @@ impl Circuit {
 
         match self.state {
             CircuitState::HalfOpen => {
-                let success_count = match config.sliding_window_type {
-                    SlidingWindowType::CountBased => self.success_count,
-                    SlidingWindowType::TimeBased => self.time_based_stats().2,
-                };
-                if success_count >= config.permitted_calls_in_half_open {
+                // Trial successes are counted as such: for time-based windows the call
+                // records are pruned by age, so successes further apart than the window
+                // would never add up and the breaker would stay half-open for good
+                self.half_open_successes += 1;
+                if self.half_open_successes >= config.permitted_calls_in_half_open {
                     self.transition_to(CircuitState::Closed, config);
                 }
             }
@@ -485,6 +488,7 @@ impl Circuit {
         self.call_records.clear();
         self.count_window.clear();
         self.recorded_since_change = 0;
+        self.half_open_successes = 0;
     }
 
     fn transition_to<C>(&mut self, state: CircuitState, config: &CircuitBreakerConfig<C>) {
